@@ -581,6 +581,26 @@ fn gen_workload(r: &mut Rng) -> (String, Vec<String>) {
     let mut nrs: std::collections::HashMap<&str, usize> = Default::default();
     let mut has_dv: std::collections::HashMap<&str, bool> = Default::default();
     let mut compacted_with_dv: Vec<&str> = vec![];
+    // DDL on EMPTY tables: a third of the workloads start with CREATE, DROP (no insert in between)
+    // and often a re-CREATE of the same name
+    if r.chance(1, 3) {
+        let t = *r.pick(&["t", "u"]);
+        model.push(format!("(create {t} 2)"));
+        sql.push(format!("create table {t}(a int, b int)"));
+        model.push(format!("(drop {t})"));
+        sql.push(format!("drop table {t}"));
+        if r.chance(1, 3) {
+            model.push("(reopen)".into());
+            sql.push("REOPEN".into());
+        }
+        if r.chance(2, 3) {
+            tables.push(t);
+            nrs.insert(t, 0);
+            has_dv.insert(t, false);
+            model.push(format!("(create {t} 2)"));
+            sql.push(format!("create table {t}(a int, b int)"));
+        }
+    }
     for step in 0..n {
         let choice = if tables.is_empty() { 0 } else { r.below(13) };
         match choice {
